@@ -76,6 +76,7 @@ var predRe = regexp.MustCompile(`^pred\s+([A-Za-z0-9_]+)\s*\(([^)]*)\)\s*=\s*(.*
 type WritesClause struct {
 	Props []string
 	Text  string
+	Assumed bool // the frame is an unchecked assumption (listed in the evidence), not proved for the body
 	Exprs []ast.Expr
 	Elems []bool // target is "every value stored in this map / slice"
 	Texts []string
@@ -380,9 +381,9 @@ func parseContractFile(path, pkgPath string, preds map[string]*Pred) ([]*FuncCon
 			}
 		case "safety":
 			cur.SafetyProps = append(cur.SafetyProps, strings.Fields(strings.ReplaceAll(rest, ",", " "))...)
-		case "writes":
+		case "writes", "writes-assumed":
 			props, body := parseProps(rest)
-			wc := &WritesClause{Props: props, Text: body}
+			wc := &WritesClause{Props: props, Text: body, Assumed: word == "writes-assumed"}
 			if strings.TrimSpace(body) != "fresh" && strings.TrimSpace(body) != "nothing" {
 				for _, part := range splitTopLevel(body) {
 					part = strings.TrimSpace(part)
